@@ -52,6 +52,9 @@ CHECKS = {
     "C10": ("differential testing across dask schedulers (synchronous / threads 1-16 / harness-owned completion orders drawn by Hypothesis) and chunkings; cooperative thread scheduler with schedule points at the shared template cache driven by drawn schedules, all 2-thread schedules of length 8 enumerated; lazy vs computed shapes; preemption stress in the thorough tier",
             "Exploration of harness-owned schedules: generated computations must give identical results under every scheduler / chunking, every drawn interleaving of threads sharing one model must reproduce the sequential results without error, and lazy arrays must report their computed shape. The 2-thread, length-8 schedule space over score is enumerated completely.",
             "interleavings inside numpy/scipy/polars C code and free-threaded interpreters are not owned by the harness (only sampled by the stress engine); schedule points are the accesses to TemplateMaskCache._dict", "4/C10"),
+    "C14": ("Hypothesis-generated components / poses (grid-coincident, fractional, rotated, straddling, outside, negative) vs a float64 reference that evaluates each template at c + R^-1 (X - pos/scale); exact-paste, loader round trip, partition/order metamorphic relations, 2-D vs z-projection differential",
+            "Generated-input exploration with a reference-model oracle for the whole volume, exact oracles for grid-coincident poses (paste and loader round trip) and metamorphic/differential relations (component and molecule order, additivity, simulate_2d == projection).",
+            "template density confined to the inscribed ball minus 2 voxels; order-0 volumes are compared only for grid-coincident poses (nearest-neighbour ties)", "4/C14"),
 }
 
 NOT_YET = {}
